@@ -190,7 +190,10 @@ type progCase struct {
 	top    []stmt
 	opts   runOpts
 	noInput bool // mlr -n
+	input   []*omap // nil: the fixed three records
+	stdin   string
 	flat   bool // compare records after flattening (emitp)
+	always bool // run the real code even when the reference is unconstrained (crash / side-effect predicates only)
 	preArgs []string
 }
 
@@ -239,8 +242,12 @@ func (cr *caseRunner) run(pc *progCase) bool {
 	st.generated++
 	sem := map[string]int64{}
 	var input []*omap
+	stdinText := inputText
 	if !pc.noInput {
 		input = fixedInput()
+		if pc.input != nil {
+			input, stdinText = pc.input, pc.stdin
+		}
 	}
 	ref := runReference(program{top: pc.top, opts: pc.opts}, input, sem)
 	if ref.nonterm {
@@ -250,14 +257,16 @@ func (cr *caseRunner) run(pc *progCase) bool {
 	if ref.uncon != "" {
 		st.uncon++
 		cr.uncons[unconClass(ref.uncon)]++
-		return false
+		if !pc.always {
+			return false
+		}
 	}
 	prod := map[string]int64{}
 	text := unparse(pc.top, prod)
 	args := pc.args(text)
 	var stdin *string
 	if !pc.noInput {
-		s := inputText
+		s := stdinText
 		stdin = &s
 	}
 	r := vf.RunMlr(args, vf.MlrOpts{Stdin: stdin})
@@ -271,7 +280,7 @@ func (cr *caseRunner) run(pc *progCase) bool {
 	replay := func() map[string]any {
 		m := map[string]any{"command": "mlr " + shellQuote(args), "expected": renderItems(ref.items), "stdout": r.Stdout, "stderr": r.Stderr, "exit": r.Exit}
 		if !pc.noInput {
-			m["stdin"] = inputText
+			m["stdin"] = stdinText
 		}
 		if ref.fatal != "" {
 			m["expected_fatal"] = ref.fatal
@@ -279,6 +288,9 @@ func (cr *caseRunner) run(pc *progCase) bool {
 		return m
 	}
 	key := func(cause string) string {
+		if len(ref.tags) > 0 {
+			cause += ";" + strings.Join(ref.tags, ";")
+		}
 		return fmt.Sprintf("%s[%s]:%03d:%s", pc.family, cause, pc.size, text)
 	}
 	if bad := cr.sing.check(); len(bad) > 0 {
@@ -287,6 +299,10 @@ func (cr *caseRunner) run(pc *progCase) bool {
 	if r.Panic != "" {
 		cr.w.Violation(key("panic"), fmt.Sprintf("`mlr %s` panics: %s", shellQuote(args), r.Panic), replay())
 		return true
+	}
+	if ref.uncon != "" {
+		cr.w.Count("family:"+pc.family+":unconstrained-run-for-crash-and-side-effect-predicates-only", 1)
+		return false
 	}
 	if ref.fatal != "" {
 		st.expectFatal++
